@@ -62,6 +62,12 @@ def argv_values(argv: list[str]) -> dict[str, object]:
     return out
 
 
+# properties of the SGE configuration introduced after 3.0 with a default, so that configurations written before still load (fixed here:
+# the expectation does not follow the source)
+OLD_DEFAULTS = {'includeNoOpOligo': False, 'backgroundVCFFilePath': None, 'forceBackgroundNonSynonymous': False,
+                'forceBackgroundFrameShifting': False, 'maskBackgroundFilePath': None}
+
+
 def run_and_replay(args):
     """Run a design from the command line, then `valiant -c` on the config.json it wrote with only the output directory changed."""
     d, how = args
@@ -79,6 +85,11 @@ def run_and_replay(args):
         os.makedirs(out2)
         cfg2 = copy.deepcopy(cfg)
         cfg2['params']['outputDirPath'] = out2
+        if d.get('_old_cfg') and cfg2.get('mode') == 'sge':
+            # a configuration as an older run wrote it: the properties added since (each with a default) are absent when they hold that default
+            for k_, dv in OLD_DEFAULTS.items():
+                if k_ in cfg2['params'] and cfg2['params'][k_] == dv:
+                    del cfg2['params'][k_]
         cfp = os.path.join(root, 'replay.json')
         with open(cfp, 'w') as fh:
             json.dump(cfg2, fh)
@@ -220,6 +231,16 @@ def invalid_case(args):
                 if not keys:
                     return {'kind': kind, 'skip': True}
                 p[keys[0]] = p[keys[0]] + '.absent'
+            elif kind == 'missing_mask':
+                # a background mask that does not exist, next to a background VCF with no record at all: still a missing input file
+                if cfg.get('mode') != 'sge':
+                    return {'kind': kind, 'skip': True}
+                bgp = os.path.join(root, 'bg_empty.vcf')
+                seqs = dict({d['contig']: d['ref']}, **(d.get('extra_contigs') or {}))
+                with open(bgp, 'w') as fh:
+                    fh.write(sge.vcf_text({k: len(v) for k, v in seqs.items()}, [], []))
+                p['backgroundVCFFilePath'] = bgp
+                p['maskBackgroundFilePath'] = os.path.join(root, 'absent_mask.bed')
             elif kind == 'missing_output_dir':
                 p['outputDirPath'] = out2 + '_absent'
             elif kind == 'not_json':
@@ -246,6 +267,9 @@ def explore(ctx: Ctx):
         if i % 5 == 0 and d['mode'] == 'sge' and d.get('pam'):
             # replayed in another process under another hash seed: a targeton listing several guides (its name joins them)
             d['targetons'][0]['sgrna'] = sorted({p_['sgrna'] for p_ in d['pam']} | {'sg1', 'sg2', 'sg3'})
+    for i, d in enumerate(designs):
+        if i % 3 == 1:
+            d['_old_cfg'] = True
     jobs = [(d, 'subproc' if i % 5 == 0 else 'inproc') for i, d in enumerate(designs)]
     results = pool_map(run_and_replay, jobs, chunksize=2)
     exprs, meta = [], []
@@ -262,7 +286,7 @@ def explore(ctx: Ctx):
             if (j + zlib.crc32(kind.encode())) % 3 == 0 or ctx.tier == 'thorough':
                 ijobs.append((d, kind, 'cli'))
         for kind in ('bad_adaptor5', 'bad_adaptor3', 'min0', 'max_neg', 'unknown_mode', 'swapped_mode', 'missing_input', 'missing_optional_input',
-                     'missing_output_dir', 'not_json', 'missing_required') + (('fs_without_ns',) if d['mode'] == 'sge' else ()):
+                     'missing_output_dir', 'not_json', 'missing_required') + (('fs_without_ns', 'missing_mask') if d['mode'] == 'sge' else ()):
             if (j + zlib.crc32(kind.encode())) % 3 == 1 or ctx.tier == 'thorough':
                 ijobs.append((d, kind, 'config'))
     ires = pool_map(invalid_case, ijobs, chunksize=2)
